@@ -45,7 +45,7 @@ func init() {
 			"S[m:m+n], it is a sub-multiset of S, and without ORDER BY it equals S[m:m+n] exactly; never an error. Non-trivial: >=2 rows not already " +
 			"in order, or a window with m+n > |S| > m.",
 		Assumptions: []string{
-			"a third of the cases run inside an envelope that must not change the result: PostgresEscapingDialect / IdiomaticArrays on (the query uses neither double quotes nor brackets), Wrapped() with FROM root.<table>, tables handed over as []map[string]any, and a second execution on the same input object",
+			"a third of the cases run inside an envelope that must not change the result: PostgresEscapingDialect / IdiomaticArrays on (the query uses neither double quotes nor brackets), Wrapped() with FROM root.<table>, tables handed over as []map[string]any, a second execution on the same input object, and the same query text run before on a different document",
 			"tie order is not checked (an unstable sort is allowed)",
 			"NULL keys only in single-key ORDER BY; keys of one scalar kind",
 		},
